@@ -261,6 +261,13 @@ func c04E2E(res *lib.Result, tier string, root *lib.Rng) error {
 					okText[part] = true
 				}
 			}
+			// a key of a table constructor without a declaration of its own falls back to the variable the
+			// table is assigned to: the identifiers to its left on the same line
+			if rest := strings.TrimLeft(lines[p.line][p.col+len(p.name):], " "); strings.HasPrefix(rest, "=") && !strings.HasPrefix(rest, "==") {
+				for _, q := range identTokens("main.lua", lines[p.line][:p.col]) {
+					okText[q.name] = true
+				}
+			}
 			if locs, err := sess.Definition("main.lua", p.line, p.col); err == nil {
 				for _, l := range locs {
 					if sess.Rel(l.URI) == "main.lua" {
